@@ -32,6 +32,8 @@ def run(ck):
     ck.rule("C12.R9", "concurrent reloads cannot leave log's max level stale: read-and-publish is serialised", floor=1)
     ck.rule("C12.R10", "what a reload replaces holds no per-span state of its own: a value swapped in judges spans that were opened before the reload", floor=5)
     ck.rule("C12.R11", "an EnvFilter edited in place is re-read by the rebuild: register_callsite refreshes the per-callsite span matcher on every registration (as C08.R11)", floor=1)
+    ck.rule("C12.R12", "a callsite first hit while a reload is in progress ends up judged by the new value: only the thread that won the registration CAS registers, others answer `sometimes` (as C04.R4), and the cached interest is written only through set_interest (as C01.R7)", floor=5)
+    ck.rule("C12.R13", "the questions the rebuild asks reach the reloadable layer: every wrapper on the way (Layered, Box, Arc, Option, Vec, Filtered) forwards register_callsite / enabled / max_level_hint (as C09.R1/R2)", floor=20)
     ck.rule("C12.R8", "a filter edited in place by modify keeps its cached max level an upper bound (DirectiveSet::add, as C08.R4): the rebuild publishes that hint", floor=1)
     ck.rule("C12.R7", "what a reload swaps in is what the stack consults: Layered re-derives a None layer's hint from the live value (as C08.R7)", floor=1)
     ck.rule("C12.R6", "the rebuild reaches every registered callsite: the lock-free list never loses a node (as C04.R3)", floor=5)
@@ -53,6 +55,12 @@ def run(ck):
             C04.r1(ck, F, rid="C12.R5")
             # ... and the rebuild only reaches callsites that are still on the registry list (C04.R3's push/walk rule)
             C04.r3(ck, F, rid="C12.R6")
+            C04.r4(ck, F, rid="C12.R12")
+            from rules import C09 as _C09
+            _C09.wrapper_rules(ck, F, rids={"R0": "C12.R13", "R1": "C12.R13", "R2": "C12.R13", "R3": "C12.R13"},
+                               only={"register_callsite", "enabled", "event_enabled", "max_level_hint", "callsite_enabled"})
+            from rules import C01 as _C01
+            _C01.r7(ck, F, rid="C12.R12")
             # the new value must also be the one judged *above* the reload layer: Layered may not answer from a
             # construction-time snapshot of the layer it wraps (Some -> None reloads)
             from rules import C08
